@@ -1,5 +1,6 @@
 import SamplyModel.Proto
 import SamplyModel.Model.ContextSwitch
+import SamplyModel.Iface.ConvJudge
 /-!
 Line protocol for C12.
 
@@ -39,7 +40,14 @@ def showState (st : St) : String :=
   | .on t => s!"final on {t} {st.onAcc} {st.offAcc}"
   | .off t => s!"final off {t} {st.onAcc} {st.offAcc}"
 
-def model (ls : List String) : List String :=
+/-- second mode `conv`: the case is a perf.data record history (first line `cfg …`, see `Iface/Conv.lean`)
+converted by `samply import`; model and judge are the converter model / `ConvJudge.judgeCs` -/
+def isConv (ls : List String) : Bool :=
+  match ls with
+  | l :: _ => (words l).head? == some "cfg"
+  | [] => false
+
+def moduleModel (ls : List String) : List String :=
   match parse ls with
   | none => ["bad-op"]
   | some (interval, evs) =>
@@ -56,9 +64,12 @@ def model (ls : List String) : List String :=
         go r.1 es (line :: acc)
     go St.init evs []
 
+def model (ls : List String) : List String :=
+  if isConv ls then ConvIface.model .cs ls else moduleModel ls
+
 /-- The judge evaluates the statement of C12 on the implementation's own output, using only the bare
 history (`CS.spec`, `CS.hstep`) as reference. -/
-def judge (ops impl : List String) : Bool × String :=
+def moduleJudge (ops impl : List String) : Bool × String :=
   match parse ops with
   | none => (false, "bad-op")
   | some (interval, evs) =>
@@ -106,5 +117,8 @@ def judge (ops impl : List String) : Bool × String :=
         | _ => (false, s!"bad output line {o}")
       | _, _ => (false, "length mismatch")
     go H.init evs impl 0 0 0
+
+def judge (ops impl : List String) : Bool × String :=
+  if isConv ops then ConvJudge.judgeCs ops impl else moduleJudge ops impl
 
 end C12
